@@ -97,9 +97,13 @@ func (s *verifC11WireStream) Read(p []byte) (int, error) {
 	s.mu.Unlock()
 	if s.gate != nil {
 		select {
-		case <-s.gate:
-		case <-s.dead:
-			return 0, io.EOF
+		case <-s.gate: // once open, the stream is served to its end whatever happens to the process
+		default:
+			select {
+			case <-s.gate:
+			case <-s.dead:
+				return 0, io.EOF
+			}
 		}
 	}
 	if len(p) == 0 {
